@@ -377,7 +377,7 @@ def _replay_chunk(recs):
     return n, nt, out[:60]
 
 
-def _tables(chk: Check, label, shards, top_leaves, inner_leaves, inner_cons, depth, cap_in, cap_out, jobs=8):
+def _tables(chk: Check, label, shards, top_leaves, inner_leaves, inner_cons, depth, cap_in, cap_out, jobs=8, vacuous_ok=False):
     """Run the bounded model in shards (one TLC each, by top constructor) and replay all printed tables."""
     def one(i_tops):
         i, tops = i_tops
@@ -394,10 +394,12 @@ def _tables(chk: Check, label, shards, top_leaves, inner_leaves, inner_cons, dep
         recs += [r for r in res.printed() if isinstance(r, dict) and "rows" in r]
     if not recs:
         raise common.MachineryError("Combinators_MC %s printed no tables" % label)
+    if sum(len(r["rows"]) for r in recs) == 0:
+        return recs
     n_rows = sum(len(r["rows"]) for r in recs)
     n_ok = sum(1 for r in recs for x in r["rows"] if x["st"] == "ok")
     n_rej = n_rows - n_ok
-    if n_ok == 0 or n_rej == 0:
+    if (n_ok == 0 or n_rej == 0) and not vacuous_ok:
         raise common.MachineryError("vacuous tables: %d ok rows, %d refusal rows" % (n_ok, n_rej))
     chunks = common.chunked(recs, common.NCPU * 6)
     done = common.parallel_map(_replay_chunk, chunks)
@@ -1029,12 +1031,13 @@ def run(chk: Check):
         "reflection bridge harness/reflect.py (to_tree/build/canon/to_py) is trusted; it is self-checked by to_tree(build(t)) == t",
     ]
     kernel = ["U8", "U16", "BA8", "BG", "CS", "STR8", "Null", "BF2"]
+    _tables(chk, "depth<=1", [["leaf"]] + _split(ALL_CONS, 7), ALL_LEAVES, ["U8"], ["CollP"], 1, 4, 8)
+    _tables(chk, "ill-formed", [MISUSE_CONS], ["U8", "S8", "F32", "BG", "Null", "BA32", "STR8"], ["U8"], ["CollP"], 1, 4, 8,
+            vacuous_ok=True)
     if chk.tier == "quick":
-        _tables(chk, "depth<=1", [["leaf"]] + _split(ALL_CONS, 7), ALL_LEAVES, ["U8"], ["CollP"], 1, 4, 8)
         _tables(chk, "depth2-kernel", _split(ALL_CONS, 8), ["U8"], kernel, ALL_CONS, 2, 3, 6)
         _traces(chk, 1600, 4)
     else:
-        _tables(chk, "depth<=1", [["leaf"]] + _split(ALL_CONS, 7), ALL_LEAVES, ["U8"], ["CollP"], 1, 4, 8)
         _tables(chk, "depth2", _split(ALL_CONS, 13), ["U8"], ALL_LEAVES, ALL_CONS, 2, 3, 6)
         small = ["U8", "BG", "CS", "Null"]
         cons3 = ["CollP", "CollG", "OptP", "IfP", "TBP", "TBGe", "TBTe", "LenSw", "FlagSw", "TupA", "TmplFlag", "TmplCtx"]
